@@ -280,7 +280,8 @@ add('C11','any-headers-reads-any-origins',OP,"func (c *cors) headerIsAllowed(r *
 add('C13','router-name-after-trace',TR,"	ctx.SetRouterName(tree.Name())\n\n	if tree.hasTrace && method == http.MethodTrace {\n		return tree.node, tree.trace, true\n	}\n","	if tree.hasTrace && method == http.MethodTrace {\n		return tree.node, tree.trace, true\n	}\n	ctx.SetRouterName(tree.Name())\n",'violation:C13.R7')
 add('C14','port-cut-at-first-colon',MA,"	if i := strings.LastIndexByte(h, ':'); i != -1 && validOptionalPort(h[i:]) {","	if i := strings.IndexByte(h, ':'); i != -1 && validOptionalPort(h[i:]) {",'violation:C14.R6')
 add('C16','recovery-nil-ignored',OP,"func WithRecovery(f RecoverFunc) Option { return func(o *options) { o.recoverFunc = f } }","func WithRecovery(f RecoverFunc) Option {\n	return func(o *options) {\n		if o.recoverFunc == nil {\n			o.recoverFunc = f\n		}\n	}\n}",'violation:C16.R8')
-add('C16','group-options-append-alias',GR,"	o = slices.Concat(g.options, o)","	o = append(g.options, o...)",'violation:C16.R7')
+add('C16','group-options-append-alias',GR,"	o = slices.Concat(g.options, o)","	o = append(g.options, o...)",'silent','harmless since NewGroup keeps a private copy and the derived list is consumed by NewRouter (section 32)')
+addm('C16','group-options-append-kept',[(GR,"	o = slices.Concat(g.options, o)","	o = append(g.options, o...)\n	g.options = g.options[:len(g.options):len(g.options)+0]\n	lastNew = o"),(GR,"// New 声明新路由","var lastNew []Option\n\n// New 声明新路由")],'violation:C16.R7','the derived list is kept next to its base')
 add('C06','group-options-after-own',GR,"	o = slices.Concat(g.options, o)","	o = slices.Concat(o, g.options)",'violation:C06.R8')
 add('C18','trace-content-type-added',TC,"		w.Header().Set(header.ContentType, header.MessageHTTP)","		w.Header().Add(header.ContentType, header.MessageHTTP)",'violation:C18.R6')
 
@@ -330,7 +331,7 @@ add('C10','strict-url-of-interior-node',TR,"	if n == nil || n.size() == 0 {","	i
 base=os.path.dirname(os.path.abspath(__file__))
 # ---------------- bug-hunt round: each repaired defect re-introduced
 add('C20','hunt-delete-unguarded',ND,"		if captures { // 未写入参数的节点不能删除同名的参数，该参数可能来自于 [Matcher]。\n			if had {\n				ctx.Set(child.segment.Name, old)\n			} else {\n				ctx.Delete(child.segment.Name)\n			}\n		}","		if had {\n			ctx.Set(child.segment.Name, old)\n		} else {\n			ctx.Delete(child.segment.Name)\n		}",'violation:C20.R4')
-add('C01','hunt-captures-ignores-flag',SG,"func (seg *Segment) Captures() bool { return seg.Type != String && !seg.ignoreName }","func (seg *Segment) Captures() bool { return seg.Type != String }",'violation:C01.R1')
+add('C01','hunt-captures-ignores-flag',SG,"func (seg *Segment) Captures() bool { return seg.Type != String && !seg.ignoreName }","func (seg *Segment) Captures() bool { return seg.Type != String }",'silent','harmless since the undo looks the name up first: an ignored name is put back or found absent (section 32)')
 add('C10','hunt-url-global-table',RO,"		if err := r.interceptors.URL(&buf, pattern, params); err != nil {","		if err := emptyInterceptors.URL(&buf, pattern, params); err != nil {",'violation:C10.R13')
 add('C13','hunt-and-keeps-path',MA,"				r.URL.Path = path\n				restoreParams(ctx, ps)\n				return false","				_ = path\n				restoreParams(ctx, ps)\n				return false",'violation:C13.R10')
 add('C13','hunt-and-keeps-params',MA,"				r.URL.Path = path\n				restoreParams(ctx, ps)\n				return false","				r.URL.Path = path\n				_ = ps\n				return false",'violation:C13.R10')
@@ -376,7 +377,7 @@ add('C08','r7-detects-on-empty-write',RO,"	if resp.size == 0 && l > 0 {","	if re
 add('C09','r7-automatic-entries-rebuilt',ME,"	if _, found := n.handlers[http.MethodOptions]; !found {\n		n.handlers[http.MethodOptions] = ApplyMiddleware(n.root.optionsBuilder(n), http.MethodOptions, pattern, n.root.Name(), ms...)\n	}","	n.handlers[http.MethodOptions] = ApplyMiddleware(n.root.optionsBuilder(n), http.MethodOptions, pattern, n.root.Name(), ms...)",'violation:C09.R5')
 add('C09','r7-benign-automatic-entries-when-empty',ME,"	if _, found := n.handlers[methodNotAllowed]; !found {","	if _, found := n.handlers[methodNotAllowed]; !found || len(n.handlers) == 0 {",'silent')
 addm('C17','r7-one-step-back',[(SG,"		for l > 0 && !utf8.RuneStart(seg.Value[l]) {\n			l--\n		}\n","		_, size := utf8.DecodeLastRuneInString(seg.Value[:l])\n		l -= size\n")],'violation:C17.R11')
-add('C07','r7-append-into-group-options',GR,"	o = slices.Concat(g.options, o)","	o = append(g.options, o...)",'violation:C07.R13')
+add('C07','r7-append-into-group-options',GR,"	o = slices.Concat(g.options, o)","	o = append(g.options, o...)",'silent','harmless since NewGroup keeps a private copy (section 32)')
 add('C14','r7-unstable-sort',ND,"slices.SortStableFunc(n.children,","slices.SortFunc(n.children,",'violation:C14.R11')
 add('C20','r7-restore-skipped-on-equal-count',MA,"func restoreParams(ctx *types.Context, ps map[string]string) {\n","func restoreParams(ctx *types.Context, ps map[string]string) {\n	if ctx.Count() == len(ps) {\n		return\n	}\n",'violation:C20.R6')
 
